@@ -107,7 +107,10 @@ def st_history(spec, golden):
         recs = golden["records"]
         m = filt.Model(list(recs), [None] * len(recs), [], None, {})
         for f in T.get("applied_filters", []):
-            sel = filt.model_filter(m, f)
+            try:
+                sel = filt.model_filter(m, f)
+            except core.NotJudged:
+                return "undefined"  # e.g. the percentile of an empty dataset: the chain has no documented result
             if isinstance(sel, dict):
                 if len(sel["alternatives"]) > 1:
                     return None
@@ -214,7 +217,7 @@ def st_history(spec, golden):
                         events.append(["probe-raised", type(exc).__name__])
                         continue
                     if exc is not None:
-                        if op[1] == "from_config" and T.get("applied_filters") and isinstance(exc, (IndexError, ValueError)) and not _ds.is_solver_failure(exc):
+                        if op[1] == "from_config" and T.get("applied_filters") and isinstance(exc, (IndexError, ValueError)) and not _ds.is_solver_failure(exc) and expect_filtered() == "undefined":
                             # a filter chain that is undefined on its input (percentile of an empty dataset): not C04's business
                             events.append(["probe-filter-raised", type(exc).__name__])
                             bump("not_judged_filter-chain-raised")
@@ -229,6 +232,10 @@ def st_history(spec, golden):
                             break
                     else:
                         exp = expect_filtered()
+                        if exp == "undefined":
+                            bump("not_judged_filter-chain-undefined")
+                            events.append(["probe", op[1], "undefined-chain"])
+                            continue
                         if exp is None:
                             bump("not_judged_percentile-boundary")
                         elif recs != exp:
